@@ -95,6 +95,13 @@ type replayRec struct {
 	Known      string            `json:"known,omitempty"`
 }
 
+func queryTimeoutMS() int {
+	if *tier == "thorough" {
+		return 120000
+	}
+	return 30000
+}
+
 func tierNum() int {
 	if *tier == "thorough" {
 		return 1
@@ -248,7 +255,7 @@ func checkMain() int {
 			defer wg.Done()
 			sem <- struct{}{}
 			defer func() { <-sem }()
-			opt := sym.Options{SolverBin: *solver, SolverArgs: []string{"-in"}, Budget: budget, Known: kregs, MaxDec: *maxDec, Tier: tierNum(), MaxCex: *maxCex}
+			opt := sym.Options{SolverBin: *solver, SolverArgs: []string{"-in", fmt.Sprintf("-t:%d", queryTimeoutMS())}, Budget: budget, Known: kregs, MaxDec: *maxDec, Tier: tierNum(), MaxCex: *maxCex}
 			if strings.Contains(*solver, "cvc5") {
 				opt.SolverArgs = []string{"--incremental", "--lang=smt2"}
 			}
